@@ -19,17 +19,13 @@
 #if defined(__SANITIZE_THREAD__)
 extern "C" void __sanitizer_set_report_path(const char *path);
 #endif
-// The hook symbol is unique per binary while every harness/*.cpp is linked into one tsgmon: monitors that use hooks (C17, C18) carry this
-// IDENTICAL weak dispatcher block (the linker keeps one copy) and install their handler in vf_hook_sink for the duration of a case.
-extern "C"{
-__attribute__((weak)) void (*vf_hook_sink)(const char*, long, long) = nullptr;
-__attribute__((weak)) void tsg_verif_hook(const char *tag, long a, long b){ if (vf_hook_sink) vf_hook_sink(tag, a, b); }
-}
+// The single definition of tsg_verif_hook lives in harness/hooks.cpp (relaxed load of vf::g_hook_handler, no happens-before edge added);
+// this monitor installs c18_hook_handler for the duration of the library call.
 
 namespace vf{
 namespace c18{
 
-constexpr int MAX_SLOTS = 40;
+constexpr int MAX_SLOTS = 24;          // 16 loader threads + main + margin
 constexpr uint32_t SLOT_CAP = 1u << 13;
 constexpr int MAX_TID = 64;
 
@@ -38,7 +34,7 @@ struct Call{ // one model call (thread-private until the library has joined the 
     size_t tid; uint64_t seq; std::vector<double> x; size_t y_on_entry; int sample;
 };
 struct Slot{
-    std::atomic<Ev*> ev{nullptr};
+    Ev *ev = nullptr;         // points into Mon::pool, set by the main thread before any other thread exists
     std::atomic<uint32_t> n{0}, dropped{0};
     std::vector<Call> calls; // owner thread only
     uint64_t rng = 0;         // owner thread only
@@ -49,6 +45,7 @@ struct Mon{
     std::atomic<int> nslots{0};
     std::atomic<int> slot_overflow{0};
     Slot slots[MAX_SLOTS];
+    Ev *pool = nullptr;       // all event buffers, allocated by the main thread (an allocation is a write for TSan: no thread may allocate what the watchdog reads)
     std::atomic<int> inflight[MAX_TID];
     std::atomic<long> launched{0};
     // configuration read by the callbacks (written before any thread starts)
@@ -58,8 +55,12 @@ struct Mon{
     int latency = 0; int slow_tid = 0; uint64_t lat_seed = 0;
     int perturb = 0; std::string focus; uint64_t perturb_seed = 0;
     const double *lpoints = nullptr; int lnum = 0; // loadNeededValues: the strip base is unknown, samples are identified by coordinates
-    Mon(){ for(auto &f : inflight) f.store(0, std::memory_order_relaxed); }
-    ~Mon(){ for(auto &s : slots){ Ev *e = s.ev.load(std::memory_order_relaxed); delete[] e; } }
+    Mon(){
+        for(auto &f : inflight) f.store(0, std::memory_order_relaxed);
+        pool = new Ev[(size_t) MAX_SLOTS * SLOT_CAP];
+        for(int i=0; i<MAX_SLOTS; i++) slots[i].ev = pool + (size_t) i * SLOT_CAP;
+    }
+    ~Mon(){ delete[] pool; }
 };
 static std::atomic<Mon*> g_mon{nullptr};
 static uint64_t g_gen_counter = 0;
@@ -72,7 +73,6 @@ static inline Slot* get_slot(Mon *m, const char *tag, long a){
     tl_gen = m->gen;
     if (idx >= MAX_SLOTS){ m->slot_overflow.store(1, std::memory_order_relaxed); tl_slot = nullptr; return nullptr; }
     Slot *s = &m->slots[idx];
-    s->ev.store(new Ev[SLOT_CAP], std::memory_order_relaxed);
     // the perturbation stream of a thread depends on the case and on the thread's role (first tag + id), not on arrival order
     s->rng = m->perturb_seed ^ ((uint64_t)(unsigned char) tag[0] * 0x9E3779B97F4A7C15ull) ^ ((uint64_t) a * 0xD1B54A32D192ED03ull);
     splitmix(s->rng);
@@ -85,7 +85,7 @@ static inline uint64_t record(Mon *m, const char *tag, long a, long b){
     if (!s) return q;
     uint32_t i = s->n.load(std::memory_order_relaxed);
     if (i >= SLOT_CAP){ s->dropped.fetch_add(1, std::memory_order_relaxed); return q; }
-    Ev *e = s->ev.load(std::memory_order_relaxed);
+    Ev *e = s->ev;
     e[i].seq.store(q, std::memory_order_relaxed); e[i].tag.store(tag, std::memory_order_relaxed);
     e[i].a.store(a, std::memory_order_relaxed); e[i].b.store(b, std::memory_order_relaxed);
     s->n.store(i + 1, std::memory_order_relaxed);
@@ -121,7 +121,6 @@ static void c18_hook_handler(const char *tag, long a, long b){
     vf::c18::perturb(m, tag + 4);
 }
 
-static void c18_hook_handler(const char *tag, long a, long b);
 namespace vf{
 namespace c18{
 
@@ -172,7 +171,7 @@ static std::vector<MEv> merged_trace(Mon *m){
     int ns = std::min(m->nslots.load(std::memory_order_relaxed), MAX_SLOTS);
     for(int i=0; i<ns; i++){
         Slot &s = m->slots[i];
-        Ev *e = s.ev.load(std::memory_order_relaxed);
+        Ev *e = s.ev;
         uint32_t n = s.n.load(std::memory_order_relaxed);
         for(uint32_t j=0; e && j<n; j++){
             const char *tg = e[j].tag.load(std::memory_order_relaxed);
@@ -220,7 +219,7 @@ struct Watchdog{
                 for(int i=0; i<ns; i++){
                     Slot &s = m->slots[i];
                     uint32_t n = s.n.load(std::memory_order_relaxed);
-                    Ev *e = s.ev.load(std::memory_order_relaxed);
+                    Ev *e = s.ev;
                     if (!e || n == 0) continue;
                     std::string tag = e[n-1].tag.load(std::memory_order_relaxed);
                     if (is_final(tag)) continue;
@@ -467,6 +466,7 @@ static CCase draw_construct(Rng &rng, bool thorough){
     if (c.family == fam_sequence || (c.family == fam_global && !(c.rule == rule_clenshawcurtis || c.rule == rule_clenshawcurtis0 || c.rule == rule_fejer2
         || c.rule == rule_rlejadouble2 || c.rule == rule_rlejadouble4))) maxlim = (c.dims == 1) ? 12 : (c.dims == 2) ? 7 : 4;
     bool limited = rng.coin(0.6);
+    if ((c.family == fam_global || c.family == fam_sequence) && is_optimized_sequence(c.rule)) limited = true; // the nodes of the greedy sequences are optimised numerically: keep them few
     if (limited){
         k.limits.resize((size_t) c.dims);
         for(auto &l : k.limits) l = rng.range(std::min(maxlim, std::max(1, c.depth)), maxlim);
@@ -601,7 +601,7 @@ static void run_construct(CaseCtx &c, Rng &rng){
 
     Watchdog wd;
     g_mon.store(m, std::memory_order_relaxed);
-    vf_hook_sink = c18_hook_handler;
+    g_hook_handler.store(&c18_hook_handler, std::memory_order_relaxed);
     wd.start(m, &c, (long) argi("stall_ms", 4000));
     std::string thrown;
     try{
@@ -609,7 +609,7 @@ static void run_construct(CaseCtx &c, Rng &rng){
         else{ if (k.guess) call_construct<false, true>(k, model, budget, g); else call_construct<false, false>(k, model, budget, g); }
     }catch(std::exception &e){ thrown = exception_class(e) + ": " + e.what(); }
     wd.finish();
-    vf_hook_sink = nullptr;
+    g_hook_handler.store(nullptr, std::memory_order_relaxed);
     g_mon.store(nullptr, std::memory_order_relaxed);
 
     std::vector<MEv> t = merged_trace(m);
@@ -642,6 +642,10 @@ static void run_construct(CaseCtx &c, Rng &rng){
     }
     c.count("samples_computed", (long long) samples);
     c.count("model_calls", (long long) calls.size());
+    if (argi("dump", 0) && c.nviol > 0){ // debugging aid: the merged trace and the model calls on stderr
+        for(auto const &e : t) fprintf(stderr, "EV %llu T%d %s(%ld,%ld)\n", (unsigned long long) e.seq, e.slot, e.tag.c_str(), e.a, e.b);
+        for(auto cl : calls){ fprintf(stderr, "CALL seq=%llu tid=%zu x=", (unsigned long long) cl->seq, cl->tid); for(double v : cl->x) fprintf(stderr, "%g ", v); fprintf(stderr, "\n"); }
+    }
 
     // ---- protocol -------------------------------------------------------------------------------
     ProtoResult pr;
@@ -782,7 +786,7 @@ static void run_load(CaseCtx &c, Rng &rng){
 
     Watchdog wd;
     g_mon.store(m, std::memory_order_relaxed);
-    vf_hook_sink = c18_hook_handler;
+    g_hook_handler.store(&c18_hook_handler, std::memory_order_relaxed);
     wd.start(m, &c, (long) argi("stall_ms", 4000));
     std::string thrown;
     try{
@@ -793,7 +797,7 @@ static void run_load(CaseCtx &c, Rng &rng){
         #undef C18_CALL
     }catch(std::exception &e){ thrown = exception_class(e) + ": " + e.what(); }
     wd.finish();
-    vf_hook_sink = nullptr;
+    g_hook_handler.store(nullptr, std::memory_order_relaxed);
     g_mon.store(nullptr, std::memory_order_relaxed);
 
     std::string ctx = "loadNeededValues";
